@@ -358,12 +358,16 @@ def translate(ctx):
                 L.append(f"def {which}_{lean} : Prog := {fn} {which}_lines")
         L.append("")
     if T["seed"] is not None:
-        seeds, lineno = T["seed"]
+        seeds, lineno, on_creation = T["seed"]
         L.append(f"/-- pyroll/core/roll_pass/base.py:{lineno} `BaseRollPass.init_solve`: (target, value, after `super().init_solve`) -/")
         L.append("def init_solve_seed : List (String × String × Bool) := [" + ", ".join(
             f"({pyexpr.lean_str(t)}, {pyexpr.lean_str(v)}, {'true' if s else 'false'})" for (t, v, s) in seeds) + "]")
+        L.append("/-- the seed is assigned only when the out profile is CREATED by this `init_solve` (`created = not self.out_profile` "
+                 "before the super call, `if created:` around the assignment); `false`: on every solve -/")
+        L.append(f"def init_solve_seed_on_creation : Bool := {'true' if on_creation else 'false'}")
     else:
         L.append("def init_solve_seed : List (String × String × Bool) := []")
+        L.append("def init_solve_seed_on_creation : Bool := false")
     if T["refine"] is not None:
         L.append(f"/-- pyroll/core/{PP}:{T['refine'][1]} `refine_cross_section` returns its argument or `argument.segmentize(...)` -/")
         L.append("def refine_returns : List String := [" + ", ".join(pyexpr.lean_str(k) for k in T["refine"][0]) + "]")
@@ -1497,7 +1501,7 @@ def _scenario(ctx, T, which, desc, groove, steps, ip, replay, lean=None, monoton
         if line is None:
             ctx.count("cache-model:history-outside-the-model")
         else:
-            lean0.append((line, ("cache", _cache_verifier(T, which, rp, info["grooves"], env, fn, prog)), replay))
+            lean0.append((line, ("cache", _cache_verifier(T, which, rp, info["grooves"], env, fn, prog, ip)), replay))
     monotone2 = monotone if groove is groove0 else bool((np.diff(gc[:, 0]) > 0).all())
     if lean is not None and monotone and monotone2:
         def contour_line(g):
@@ -1535,7 +1539,7 @@ def _cache_line(which, info, log):
     return f"cache {which} " + " / ".join(parts) if parts else None
 
 
-def _cache_verifier(T, which, rp, grooves, env, fn, prog):
+def _cache_verifier(T, which, rp, grooves, env, fn, prog, ip=None):
     """what the used pass really holds after the last solve of its history, to be compared with the model's prediction
     {used, lines, ucs: (gap value, index of the groove whose contour the roll's contour line carried, index of the groove read
     directly | None), gap: value}: the out cross-section / the memoised contour lines / the cached usable cross-section must
@@ -1546,6 +1550,25 @@ def _cache_verifier(T, which, rp, grooves, env, fn, prog):
             "lines": np.concatenate([np.array(l.coords) for l in rp.contour_lines.geoms]),
             "used": np.array(rp.out_profile.cross_section.exterior.coords),
             "ucs": np.array(rp.usable_cross_section.exterior.coords)}
+    # the START value of a further solve: what the out profile's cross-section holds after one more `init_solve` with the
+    # same incoming profile (the model: `initSolve` on the state after the history) - the usable cross-section again, or
+    # the result of the previous solution, as the source of `BaseRollPass.init_solve` says.  Done last: `rp` is not used
+    # by the harness afterwards.
+    real["ocs"] = real["used"]
+    real["next"] = None
+    if ip is not None:
+        log = rp.__dict__.get("c08_gap_log")
+        n_log = len(log) if log is not None else None
+        try:
+            rp.init_solve(ip)
+            cs = rp.out_profile.__dict__.get("cross_section")
+            real["next"] = np.array(cs.exterior.coords) if cs is not None and not cs.is_empty else np.zeros((0, 2))
+        except Exception as ex:
+            if not _in_pyroll(ex):
+                raise
+            real["next"] = "raised " + type(ex).__name__
+        if log is not None:
+            del log[n_log:]
     ufn = T["resolved"].get((which, "usable_cross_section"))
     uprog = next((r for (i, r) in T["hooks"] if i["fn"] == ufn), None)
     lines_term = _lines_term(T, which)
@@ -1554,12 +1577,25 @@ def _cache_verifier(T, which, rp, grooves, env, fn, prog):
         bad = []
         if pred.get("gap") is None or pred["gap"] != real["gap"]:
             bad.append(f"reported gap: model {pred.get('gap')}, pass {real['gap']}")
-        for key, build in (("lines", lambda sr, e: _coords(eval_term(lines_term, sr, e))),
-                           ("used", lambda sr, e: np.array(eval_prog(T, prog, lines_term, sr, e)[1].exterior.coords)),
-                           ("ucs", lambda sr, e: np.array(eval_prog(T, uprog, lines_term, sr, e)[1].exterior.coords))):
-            if key == "ucs" and uprog is None:
+        b_lines = lambda sr, e: _coords(eval_term(lines_term, sr, e))
+        b_used = lambda sr, e: np.array(eval_prog(T, prog, lines_term, sr, e)[1].exterior.coords)
+        b_ucs = lambda sr, e: np.array(eval_prog(T, uprog, lines_term, sr, e)[1].exterior.coords)
+        items = [("lines", b_lines, pred.get("lines")), ("used", b_used, pred.get("used")), ("ucs", b_ucs, pred.get("ucs"))]
+        for key in ("ocs", "next"):
+            # `built l` = the hook implementation at the prescribed width on the lines l, `seeded l` = the usable
+            # cross-section on the lines l
+            if key == "next" and real["next"] is None:
                 continue
             pv = pred.get(key)
+            if isinstance(real[key], str):
+                bad.append(f"{key}: init_solve on the used pass {real[key]}")
+            elif pv is None or pv[0] == "inherited":
+                bad.append(f"{key}: the model says the out profile holds {'nothing' if pv is None else 'the incoming cross-section'}")
+            else:
+                items.append((key, b_used if pv[0] == "built" else b_ucs, pv[1]))
+        for key, build, pv in items:
+            if build is b_ucs and uprog is None:
+                continue
             if pv is None:
                 bad.append(f"{key}: the model holds no value")
                 continue
@@ -1577,8 +1613,8 @@ def _cache_verifier(T, which, rp, grooves, env, fn, prog):
                 bad.append(f"{key}: generated term at gap {g}, groove {kl}: {type(ex).__name__}")
                 continue
             if mine.shape != real[key].shape or not np.array_equal(mine, real[key]):
-                bad.append(f"{key}: not the generated construction with the contour of groove {kl} (of {len(grooves)} mounted one after "
-                           f"the other) at gap {g} (the pass reports {real['gap']})")
+                bad.append(f"{key}: not the generated {'usable cross-section' if build is b_ucs else 'construction'} with the contour of "
+                           f"groove {kl} (of {len(grooves)} mounted one after the other) at gap {g} (the pass reports {real['gap']})")
         return bad
     return verify
 
@@ -1852,6 +1888,15 @@ def _check_lean(ctx, lean):
                         pred[k] = None
                     elif k == "gap":
                         pred[k] = stub.unbits(v)
+                    elif k in ("ocs", "next"):    # what the out profile's cross-section holds: <kind>[:<prov>]
+                        kind, _, rest = v.partition(":")
+                        if kind not in ("inherited", "seeded", "built") or (kind == "inherited") != (rest == ""):
+                            raise ValueError(v)
+                        if rest:
+                            a, b, c = rest.split(":")
+                            pred[k] = (kind, (stub.unbits(a), int(b), None if c == "-" else int(c)))
+                        else:
+                            pred[k] = (kind, None)
                     else:                         # <gap bits>:<groove index of the roll's contour line>:<groove read directly | ->
                         a, b, c = v.split(":")
                         pred[k] = (stub.unbits(a), int(b), None if c == "-" else int(c))
